@@ -2399,6 +2399,87 @@ func (w *c20Walker) lin(fr *c20Frame, v ssa.Value) (terms map[string]int64, k in
 	return
 }
 
+// storeParts describes a store as (location, value key) pairs. A store of a struct value is
+// split into its fields: the value may be a composite literal built in a local (stores to the
+// FieldAddrs of an Alloc, then load + store of the whole), the zero value, or a struct that has
+// a symbolic name itself (parameter, copy of another location, result of an inlined call).
+// An unknown field value is "" (location known, content not understood).
+func (w *c20Walker) storeParts(fr *c20Frame, st *ssa.Store) [][2]string {
+	t := w.loc(fr, st.Addr)
+	if t == "" {
+		return nil
+	}
+	styp, isStruct := st.Val.Type().Underlying().(*types.Struct)
+	if !isStruct {
+		return [][2]string{{t, w.linKey(fr, st.Val)}}
+	}
+	parts := [][2]string{{t, ""}}
+	rf, rv := w.resolve(fr, st.Val)
+	zero := c20Key(nil, 0)
+	fieldVals := map[int]string{}
+	known := false
+	switch x := rv.(type) {
+	case *ssa.Const:
+		if x.Value == nil { // T{}
+			known = true
+			for i := 0; i < styp.NumFields(); i++ {
+				fieldVals[i] = zero
+			}
+		}
+	case *ssa.UnOp:
+		if al, isAlloc := x.X.(*ssa.Alloc); x.Op == token.MUL && isAlloc && al.Referrers() != nil {
+			whole := 0
+			cnt := map[int]int{}
+			for _, r := range *al.Referrers() {
+				switch y := r.(type) {
+				case *ssa.Store:
+					if y.Addr == ssa.Value(al) {
+						whole++
+					}
+				case *ssa.FieldAddr:
+					if y.Referrers() == nil {
+						continue
+					}
+					for _, r2 := range *y.Referrers() {
+						if fs, ok := r2.(*ssa.Store); ok && fs.Addr == ssa.Value(y) {
+							cnt[y.Field]++
+							fieldVals[y.Field] = w.linKey(rf, fs.Val)
+						}
+					}
+				}
+			}
+			if whole == 0 { // composite literal: every field stored at most once, the others are zero
+				known = true
+				for i := 0; i < styp.NumFields(); i++ {
+					switch {
+					case cnt[i] == 0:
+						fieldVals[i] = zero
+					case cnt[i] > 1:
+						fieldVals[i] = ""
+					}
+				}
+			} else {
+				fieldVals = map[int]string{}
+			}
+		}
+	}
+	if !known {
+		if base := w.sym(rf, rv); base != "" {
+			for i := 0; i < styp.NumFields(); i++ {
+				fieldVals[i] = c20One(base + "." + styp.Field(i).Name())
+			}
+		}
+	}
+	for i := 0; i < styp.NumFields(); i++ {
+		v := fieldVals[i]
+		if _, nested := styp.Field(i).Type().Underlying().(*types.Struct); nested {
+			v = ""
+		}
+		parts = append(parts, [2]string{t + "." + styp.Field(i).Name(), v})
+	}
+	return parts
+}
+
 func c20Key(terms map[string]int64, k int64) string {
 	var parts []string
 	for s, c := range terms {
@@ -2753,16 +2834,16 @@ func c20Read(c *Ctx, p *Prog, acc c20Acc, op c20OpenInfo) {
 					rp.unknownSides = append(rp.unknownSides, a+"|"+b)
 				}
 			case *ssa.Store:
-				t := w.loc(st.fr, x.Addr)
-				if t == "" {
-					continue
-				}
-				rp.stores[t] = w.linKey(st.fr, x.Val)
-				rp.storeCount[t]++
-				stored[t] = true
-				for f := range rp.facts {
-					if strings.HasPrefix(f, t+"<=") || strings.HasSuffix(f, "<="+t) {
-						delete(rp.facts, f)
+				// a whole-struct store is the store of each of its fields
+				for _, part := range w.storeParts(st.fr, x) {
+					t := part[0]
+					rp.stores[t] = part[1]
+					rp.storeCount[t]++
+					stored[t] = true
+					for f := range rp.facts {
+						if strings.HasPrefix(f, t+"<=") || strings.HasSuffix(f, "<="+t) || strings.HasPrefix(f, t+".") || strings.Contains(f, "<="+t+".") {
+							delete(rp.facts, f)
+						}
 					}
 				}
 			case *ssa.IndexAddr:
